@@ -50,18 +50,20 @@ package age
 //@   loop 2 invariant -1 <= rangeindex && rangeindex < len(identities)
 //@   loop 2 invariant#fresherrs fresh(errNoMatch) && (rg(errNoMatch.Errors) == 0 || fresh(errNoMatch.Errors))
 //@   loop 2 invariant#count $uwn == old($uwn) + rangeindex + 1                                                                        [C01 C04 C05]
-//@   loop 2 invariant#nokey fileKey == nil                                                                                              [C01 C04 C05]
+//@   loop 2 invariant#nokey fileKey == nil                                                                                              [C01 C05]
+//@   loop 2 invariant#somekey fileKey != nil ==> (exists j in 0..rangeindex+1 :: !wraps($uwerr[old($uwn)+j], EII))                       [C04]
 //@   loop 2 invariant#frame unchanged(identities) && disjoint(errNoMatch.Errors, identities)                                           [C01 C04 C14]
 //@   loop 2 invariant#logid forall j in 0..rangeindex+1 :: $uwid[old($uwn)+j] == identities[j]                                          [C01 C04 C05]
-//@   loop 2 invariant#logerr forall j in 0..rangeindex+1 :: wraps($uwerr[old($uwn)+j], EII)                                            [C01 C04 C05]
+//@   loop 2 invariant#logerr forall j in 0..rangeindex+1 :: wraps($uwerr[old($uwn)+j], EII)                                            [C01 C05]
 //@   loop 2 invariant#alleii (forall j in 0..rangeindex+1 :: wraps($uwerr[old($uwn)+j], EII)) ==> (fileKey == nil && len(errNoMatch.Errors) == rangeindex+1 && (forall j in 0..rangeindex+1 :: errNoMatch.Errors[j] == $uwerr[old($uwn)+j]))   [C04]
 //@   loop 2 decreases len(identities) - rangeindex
 //@   call Unwrap#0 requires len(arg1) == len(hdr.Recipients) && (forall j in 0..len(arg1) :: arg1[j] == hdr.Recipients[j])             [C01 C04 C10]
 //@   ensures#nilxor (rd == nil) <==> (err != nil)                                                              [C03 C04 C07 C14]
 //@   ensures#order $uwn - old($uwn) <= len(identities) && (forall j in 0..$uwn-old($uwn) :: $uwid[old($uwn)+j] == identities[j])   [C01 C04 C05]
-//@   ensures#stopfirst forall j in 0..$uwn-old($uwn)-1 :: wraps($uwerr[old($uwn)+j], EII)                      [C01 C04 C05]
+//@   ensures#stopfirst forall j in 0..$uwn-old($uwn)-1 :: wraps($uwerr[old($uwn)+j], EII)                      [C01 C05]
 //@   ensures#nomatch (len(identities) > 0 && $uwn - old($uwn) == len(identities) && (forall j in 0..len(identities) :: wraps($uwerr[old($uwn)+j], EII))) ==> rd == nil && typeis(err, "*filippo.io/age.NoIdentityMatchError") && len(cast(err, "filippo.io/age.NoIdentityMatchError").Errors) == len(identities) && (forall j in 0..len(identities) :: cast(err, "filippo.io/age.NoIdentityMatchError").Errors[j] == $uwerr[old($uwn)+j])   [C01 C04]
-//@   ensures#keyok err == nil ==> $uwn > old($uwn) && $uwerr[$uwn-1] == nil && !isnil($uwkey[$uwn-1]) && same($uwkey[$uwn-1], fileKey)   [C01 C04 C05]
+//@   ensures#keyok err == nil ==> $uwn > old($uwn) && $uwerr[$uwn-1] == nil && !isnil($uwkey[$uwn-1]) && same($uwkey[$uwn-1], fileKey)   [C01 C05]
+//@   ensures#somekey err == nil ==> (exists j in 0..$uwn-old($uwn) :: !wraps($uwerr[old($uwn)+j], EII))        [C04]
 //@   ensures#mac err == nil ==> $eqcalls == old($eqcalls)+1 && $eqr && $eqb == bytes(hdr.MAC) && $eqa == hmac256(sub(hkdfstream(bytes(fileKey), "", "header"), 0, 32), hdrbytes(hdr))   [C01 C03 C05]
 //@   ensures#reader err == nil ==> typeis(rd, "*filippo.io/age/internal/stream.Reader") && cast(rd, "filippo.io/age/internal/stream.Reader").src == payload && cast(rd, "filippo.io/age/internal/stream.Reader").a.$key == sub(hkdfstream(bytes(fileKey), bytes(nonce), "payload"), 0, 32)   [C01 C02 C05 C12]
 //@   call io.ReadFull#1 requires arg0 == payload && same(arg1, nonce) && len(nonce) == 16       [C02 C05]
